@@ -277,6 +277,9 @@ func runChains(c ChainCase) (pbt.Result, error) {
 }
 
 var chainSkeletons = map[string][]ChainOp{
+	// base (held) <- A (returns an object at once), B (its target does not acknowledge), C pipelined on A; the base
+	// returns, the replay of its queue is stuck at B; D arrives on the same reference as C and must not overtake it
+	"nested-overtake": {{K: "call", B: 5}, {K: "pipe", A: 0, B: 4}, {K: "pipe", A: 0, B: 3}, {K: "pipe", A: 1, B: 0}, {K: "open", A: 0}, {K: "pipe", A: 1, B: 0}, {K: "open", A: 0}},
 	// second-level pipelining behind a held base call
 	"second-level": {{K: "call", B: 5}, {K: "pipe", A: 0, B: 5}, {K: "pipe", A: 1, B: 0}, {K: "pipe", A: 1, B: 0}, {K: "open", A: 0}, {K: "pipe", A: 1, B: 0}, {K: "open", A: 0}},
 	// the answer's queue is replayed while its target is busy with an un-acknowledged call, and another call arrives on the pipeline
@@ -285,14 +288,14 @@ var chainSkeletons = map[string][]ChainOp{
 
 var _ = pbt.Register(pbt.Spec[ChainCase]{
 	Property: "C12", Name: "pipeline-chains",
-	Rule:  "scripts of 3-20 ops over server.Server objects that return further objects: calls on the root object or on capabilities taken from results, calls pipelined on any earlier call's answer (first- and second-level, pointer 0 or 1), behaviours {return at once, wait at a gate after acknowledging, wait at a gate WITHOUT acknowledging (the object stays busy), fail} x {no capability, a fresh object, two different fresh objects, the same object twice}, gate openings; two skeletons (second-level pipelining behind a held call; an answer's queue replayed while its target is busy, with a further pipelined call arriving) are interleaved with drawn ops in half of the cases. Calls are made one after another from one goroutine; a Send the server keeps waiting is left pending and only gates are opened until it returns. Oracle: every call reaches exactly the object its reference denotes (or fails if the answer holds no capability there), exactly once; it resolves with its own results / its own error; calls made on one reference (root, or pointer f of call k's results - through the answer's pipeline or a client taken from the results) arrive in the order they were made; every Send and answer completes once all gates are open. Non-trivial: a second-level pipelined call or a Send that was kept waiting.",
+	Rule:  "scripts of 3-20 ops over server.Server objects that return further objects: calls on the root object or on capabilities taken from results, calls pipelined on any earlier call's answer (first- and second-level, pointer 0 or 1), behaviours {return at once, wait at a gate after acknowledging, wait at a gate WITHOUT acknowledging (the object stays busy), fail} x {no capability, a fresh object, two different fresh objects, the same object twice}, gate openings; three skeletons (second-level pipelining behind a held call; an answer's queue replayed while its target is busy, with a further pipelined call arriving; a call pipelined on a queued call's answer while the replay of the base's queue is stuck behind it) are interleaved with drawn ops in half of the cases. Calls are made one after another from one goroutine; a Send the server keeps waiting is left pending and only gates are opened until it returns. Oracle: every call reaches exactly the object its reference denotes (or fails if the answer holds no capability there), exactly once; it resolves with its own results / its own error; calls made on one reference (root, or pointer f of call k's results - through the answer's pipeline or a client taken from the results) arrive in the order they were made; every Send and answer completes once all gates are open. Non-trivial: a second-level pipelined call or a Send that was kept waiting.",
 	Quick: 1500, Thorough: 20000,
 	Gen: func(t *rapid.T) ChainCase {
 		var c ChainCase
 		rnd := func() ChainOp {
 			return ChainOp{K: rapid.SampledFrom([]string{"call", "call", "pipe", "pipe", "pipe", "getcap", "open", "open"}).Draw(t, "k"), A: rapid.IntRange(0, 11).Draw(t, "a"), B: rapid.IntRange(0, 31).Draw(t, "b")}
 		}
-		if sk := rapid.SampledFrom([]string{"", "", "second-level", "busy-target-during-replay"}).Draw(t, "skeleton"); sk != "" {
+		if sk := rapid.SampledFrom([]string{"", "", "", "second-level", "busy-target-during-replay", "nested-overtake"}).Draw(t, "skeleton"); sk != "" {
 			for _, s := range chainSkeletons[sk] {
 				if rapid.IntRange(0, 3).Draw(t, "fill") == 0 {
 					c.Ops = append(c.Ops, rnd())
